@@ -13,6 +13,9 @@ use std::fmt::Debug;
 pub struct SymbolTable<S: Clone + Debug> {
     graph: StableGraph<Item<S>, Identifier>,
     pub root: SymbolIndex,
+    /// The children of every node by name, so looking up a child does not have to visit all of the node's edges
+    /// (a scope can have tens of thousands of children, e.g. the iterations of a loop)
+    children_by_id: HashMap<SymbolIndex, HashMap<Identifier, SymbolIndex>>,
 }
 
 pub type SymbolIndex = NodeIndex;
@@ -40,7 +43,11 @@ impl<S: Clone + Debug> Default for SymbolTable<S> {
         let mut graph = StableGraph::new();
         let root = graph.add_node(Item::new(None));
 
-        Self { graph, root }
+        Self {
+            graph,
+            root,
+            children_by_id: HashMap::new(),
+        }
     }
 }
 
@@ -75,8 +82,24 @@ impl<S: Clone + Debug> SymbolTable<S> {
             new_nx,
             parent_nx
         );
-        self.graph.add_edge(parent_nx, new_nx, id);
+        self.link(parent_nx, new_nx, id);
         new_nx
+    }
+
+    fn link(&mut self, parent_nx: SymbolIndex, child_nx: SymbolIndex, id: Identifier) {
+        self.children_by_id
+            .entry(parent_nx)
+            .or_default()
+            .insert(id.clone(), child_nx);
+        self.graph.add_edge(parent_nx, child_nx, id);
+    }
+
+    fn unlink(&mut self, parent_nx: SymbolIndex, child_nx: SymbolIndex, id: &Identifier) {
+        if let Some(children) = self.children_by_id.get_mut(&parent_nx) {
+            if children.get(id) == Some(&child_nx) {
+                children.remove(id);
+            }
+        }
     }
 
     pub fn update_data<D: Into<Option<S>>>(&mut self, nx: SymbolIndex, data: D) {
@@ -110,13 +133,22 @@ impl<S: Clone + Debug> SymbolTable<S> {
                 to_export_nx,
                 new_id
             );
-            self.graph.add_edge(new_nx, to_export_nx, new_id);
+            self.link(new_nx, to_export_nx, new_id);
             true
         }
     }
 
     pub fn remove(&mut self, nx: SymbolIndex) {
         log::trace!("Removing node: {:?}", nx);
+        let incoming = self
+            .graph
+            .edges_directed(nx, Direction::Incoming)
+            .map(|edge| (edge.source(), edge.weight().clone()))
+            .collect_vec();
+        for (parent_nx, id) in incoming {
+            self.unlink(parent_nx, nx, &id);
+        }
+        self.children_by_id.remove(&nx);
         self.graph.remove_node(nx);
     }
 
@@ -178,12 +210,10 @@ impl<S: Clone + Debug> SymbolTable<S> {
     }
 
     pub fn child(&self, nx: SymbolIndex, id: &Identifier) -> Option<SymbolIndex> {
-        for child in self.graph.edges_directed(nx, Direction::Outgoing) {
-            if child.weight() == id {
-                return Some(child.target());
-            }
-        }
-        None
+        self.children_by_id
+            .get(&nx)
+            .and_then(|children| children.get(id))
+            .copied()
     }
 
     pub fn children(&self, nx: SymbolIndex) -> HashMap<Identifier, SymbolIndex> {
@@ -212,7 +242,12 @@ impl<S: Clone + Debug> SymbolTable<S> {
 
         for id in edge_ids {
             if let Some(weight) = self.graph.edge_weight_mut(id) {
-                *weight = new_id.clone();
+                let old_id = std::mem::replace(weight, new_id.clone());
+                self.unlink(nx, child_nx, &old_id);
+                self.children_by_id
+                    .entry(nx)
+                    .or_default()
+                    .insert(new_id.clone(), child_nx);
             }
         }
     }
